@@ -182,9 +182,11 @@ type binaryReader struct {
 	err error
 }
 
+// uvarint reads a count of items or bytes that are still to come: it can not
+// exceed the number of remaining bytes.
 func (b *binaryReader) uvarint() int {
 	x, n := binary.Uvarint(b.b)
-	if n <= 0 {
+	if n <= 0 || x > uint64(len(b.b)-n) {
 		b.b = nil
 		b.err = errors.New("malformed RepoBranches")
 		return 0
